@@ -88,6 +88,7 @@ fn main() {
                 };
                 let rec = runner::FailureRec { clause, sig: "fuzz".into(), msg: format!("decoded from libFuzzer artifact {art}"), case };
                 let path = runner::write_replay(&opts.verif_dir, prop, &rec);
+                println!("fuzz-replay: case written to {}", path.display());
                 std::process::exit(runner::replay(&path, &opts));
             }
             let clause = match prop.as_str() {
@@ -107,6 +108,7 @@ fn main() {
             };
             let rec = runner::FailureRec { clause: clause.to_string(), sig: "fuzz".into(), msg: format!("decoded from libFuzzer artifact {art}"), case };
             let path = runner::write_replay(&opts.verif_dir, prop, &rec);
+            println!("fuzz-replay: case written to {}", path.display());
             runner::replay(&path, &opts)
         }
         "selftest-q" => match sfverif::q::selftest(2_000_000) {
